@@ -24,7 +24,7 @@ class C19(Check):
             'that are multiples of the sampling period P in {0.5 s, 1 s}; a discrete trace of n <= 12 samples is evaluated by the discrete-time monitor and, as '
             'a step signal changing only at multiples of P, by the dense-time monitor; for every k with k + horizon < n the dense value at k*P must equal the '
             'discrete value at k; both are also compared with the models (rho, Dn); non-trivial = temporal operator and non-empty settled region; '
-            'a quarter of the cases with bounded operators write the bounds with explicit units (both ends / one end only, s / ms / us); plus decimal sampling periods (0.1 s, 0.2 s, 0.01 s: time-stamps k*P and bounds that are not binary fractions); plus bounded operators with windows of 3-6 periods over ramp-shaped traces of 8-18 samples; distinct by (formula, trace, P)')
+            'a quarter of the cases with bounded operators write the bounds with explicit units (both ends / one end only, s / ms / us); plus sqrt above a bounded future operator on traces of perfect squares; plus decimal sampling periods (0.1 s, 0.2 s, 0.01 s: time-stamps k*P and bounds that are not binary fractions); plus bounded operators with windows of 3-6 periods over ramp-shaped traces of 8-18 samples; distinct by (formula, trace, P)')
 
     def gen_cases(self, rng, tier):
         cases = []
@@ -54,6 +54,13 @@ class C19(Check):
                 continue
             n = rng.choice([5, 8, 12])
             cases.append({'f': f, 'n': n, 'nv': need_vars(f, 1), 'cols': fml.gen_trace(rng, need_vars(f, 1), n), 'P': 2, 'dec_ms': rng.choice([100, 200, 10])})
+        # a partial arithmetic function above a bounded future operator: well defined at every settled sample, the discrete-time
+        # evaluator pads the unsettled tail with -inf
+        for k in range(3 if tier == 'quick' else 20):
+            n = rng.choice([5, 8])
+            col = [rng.choice([1, 4, 9, 16]) for _ in range(n)]
+            f = [('pred', 'geq', ('a1', 'sqrt', ('evt', 1, 1, ('var', 0))), ('const', 2)), ('pred', 'leq', ('a1', 'sqrt', ('alwt', 1, 2, ('var', 0))), ('const', 3))][k % 2]
+            cases.append({'f': f, 'n': n, 'nv': 1, 'cols': [col], 'P': 2, 'partial_pad': 1})
         # unbounded once / historically nested in each other (the dense visitors share a running value between the two)
         X1, Y0 = ('pred', 'geq', ('var', 0), ('const', 1)), ('pred', 'geq', ('var', 1), ('const', 0))
         for f in [('hist', ('implies', ('once', X1), Y0)), ('hist', ('hist', ('pred', 'geq', ('var', 1), ('a1', 'neg', ('const', 1))))), ('once', ('hist', X1)),
@@ -132,7 +139,7 @@ class C19(Check):
         info = parse_fields(mlines[1])
         if 'ERROR' in m or mlines[2].startswith('ERROR'):
             return 'model-error', mlines
-        if m['EXACT'] != ['1'] or not dense.dn_exact(mlines[2]):
+        if (m['EXACT'] != ['1'] or not dense.dn_exact(mlines[2])) and not c.get('partial_pad'):
             return 'dropped', None
         h = int(info['HOR'][0])
         rho = json.loads(json.dumps(expect_vals([fml.parse_val(x) for x in m['RHO']])))
@@ -168,10 +175,12 @@ class C19(Check):
         sig = Check.signature(self, c, detail)
         if c.get('dec_ms'):
             sig['shape'] = 'decimal_time_stamps'
+        if c.get('partial_pad'):
+            sig['shape'] = 'partial_function_over_padding'
         return sig
 
     def still_fails(self, model, c, shape=None):
-        if c.get('dec_ms'):
+        if c.get('dec_ms') or c.get('partial_pad'):
             return False, None
         return Check.still_fails(self, model, c, shape)
 
